@@ -54,13 +54,13 @@ func init() {
 		Assumptions: []string{"only the four ASCII whitespace characters the lexer documents", "the empty filler is used only next to a symbol token ()[]{}:+=><~^ (never merges tokens)"},
 		Bounds: func(tier string) map[string]any {
 			if tier == "thorough" {
-				return map[string]any{"N": 5, "paren_trees": "T(21,2)", "two_gap_deviations_upto_N": 4}
+				return map[string]any{"N": 5, "paren_trees": "T(25,2)", "two_gap_deviations_upto_N": 4}
 			}
-			return map[string]any{"N": 4, "paren_trees": "T(21,1) ∪ T(6,2)"}
+			return map[string]any{"N": 4, "paren_trees": "T(25,1) ∪ T(6,2)"}
 		},
 		Deadline: func(tier string) int {
 			if tier == "thorough" {
-				return 3000
+				return 1000
 			}
 			return 300
 		},
